@@ -448,6 +448,7 @@ class Source:
         self.err = err
         self.pulled = 0
         self.iters = 0
+        self.ends = 0          # iterators that were asked for more than there is
 
     def __iter__(self):
         self.iters += 1
@@ -473,6 +474,7 @@ class _SourceIter:
             src.pulled += 1
             return v
         self.ended = True
+        src.ends += 1
         if src.err is not None:
             raise TAGS[src.err[0]](src.err[1])
         raise StopIteration
@@ -546,10 +548,12 @@ def _one_run(case, k, mode):
             pass
         k = None
         first = src.pulled
+        first_ends = src.ends
         again = True
         _S.random = ScriptedRandom(*_scripts(case['ops']))    # the script starts over, too
     else:
         first = 0
+        first_ends = 0
         again = False
     try:
         if k is None:
@@ -575,6 +579,7 @@ def _one_run(case, k, mode):
                         break
                 n = len(out)
                 pulled_at_k = src.pulled
+                ends_at_k = src.ends
             finally:
                 # abandon the iterator the way a `break` does
                 close = getattr(it, 'close', None)
@@ -588,11 +593,13 @@ def _one_run(case, k, mode):
             out = None          # the values delivered before the exception are not observable
         n = len(out) if out is not None else -1
         pulled_at_k = src.pulled
+        ends_at_k = src.ends
     pulled = (src.pulled - first) if k is None else pulled_at_k
+    ended = (src.ends - first_ends) if k is None else ends_at_k
     if again:
         k = 'again'
     return dict(vals=None if out is None else '[' + ','.join(show(v) for v in out) + ']', n=n, end=end,
-                pulled=pulled, built=built, prints=len(prints), k=k, mode=mode)
+                pulled=pulled, ended=ended, built=built, prints=len(prints), k=k, mode=mode)
 
 
 def run_case(case):
@@ -624,7 +631,7 @@ def run_case(case):
         raise RuntimeError('scenario body died')
     runs = box['runs']
     res['runs'] = runs
-    res['events'] = [[r['k'], r['vals'], r['n'], r['end'], r['pulled']] for r in runs]
+    res['events'] = [[r['k'], r['vals'], r['n'], r['end'], r['pulled'], r['ended']] for r in runs]
     # ------------------------------------------------------------------ monitors (the property)
     vals = [to_py(j) for j in case['vals']]
     err = tuple(case['err']) if case['err'] is not None else None
@@ -704,9 +711,10 @@ def model_lines(cid, case, res):
     for r in res.get('runs', []):
         if r['k'] is None or r['k'] == 'again':
             # drain() / a failed collect(): the values are not observable (`-`); the monitor checks the count
-            lines.append(f'obs full {r["vals"] or "-"} {r["end"]} {r["pulled"]}')
+            lines.append(f'obs full {r["vals"] or "-"} {r["end"]} {r["pulled"]} {r["ended"]}')
         else:
-            lines.append(f'obs take {r["k"]} {r["vals"]} {r["end"]} {r["pulled"]}')
+            lines.append(f'obs take {r["k"]} {r["vals"]} {r["end"]} {r["pulled"]} {r["ended"]}')
+    lines.append(f'nobs {sum(1 for l in lines if l.startswith("obs "))}')
     lines.append('end')
     return lines
 
